@@ -186,6 +186,7 @@ func C20(c *Ctx) {
 	bootstrapSubset(c, "C20-j")
 	r.Rule("C20-k", "the ignore-case suffix is lexed alike by the three front-ends: the `ignore:` item of LitMatcher and CharClassMatcher in both grammars and the `if s.cur == 'i'` of the hand-written scanner's literal and class routines are all unconditional (an optional bare `i`) or all conditional - otherwise the front-ends split `\"a\"item` differently")
 	ignoreCaseSuffixAgreement(c, "C20-k")
+	r.Rule("C20-m", "the hand-written scanner validates a numeric escape by the value its digits denote: in the digit loop of the escape routine the accumulator is updated as x = x*B + d, B being the radix the loop admits digits of (d >= B rejects) - the generated front-end accepts by digit count and digit set, so a value computed in another radix rejects escapes the grammars accept (\\101 is 65, not 0x101)")
 	r.Rule("C20-l", "the Makefile's comparison of stage 2 and stage 3 (target cmp: bootstrap-pigeon and pigeon on the same grammar, outputs compared byte for byte) runs pigeon with exactly the generation options bootstrap-pigeon hard-codes (builder.Nolint(true) ⇒ -nolint, nothing else): otherwise the documented fixpoint test fails on a tree that is a fixpoint")
 	r.Rule("C20-f", "sibling agreement of the two front-end grammars: every rule defined both in grammar/bootstrap.peg and in grammar/pigeon.peg (compared through their generated literals, positions and actions aside) has the same expression, except the listed rules where pigeon.peg extends the bootstrap subset")
 	r.Rule("C20-d", "for artifacts generated without -optimize-grammar: every position{line,col,offset} in the grammar literal satisfies line = 1 + newlines before offset, col = 1 + runes since the last newline; rule names, rule references, character-class texts and `.` occur at their offsets in the .peg")
@@ -211,6 +212,8 @@ func C20(c *Ctx) {
 		ok := err == nil && strings.Contains(strings.ReplaceAll(string(b), " ", ""), it.want)
 		r.Check(ok, "C20-b", "A."+it.file+":builder-options", "", it.file, "options as assumed for the artifact comparison ("+it.want+")", "the tool no longer builds with "+it.want+": the flags assumed for its artifact are wrong")
 	}
+	// ---- m: the hand-written scanner validates numeric escapes by their value
+	bootstrapEscapeRadix(c, "C20-m")
 	// ---- l: the Makefile's own fixpoint comparison
 	c20CmpRecipe(c, repo)
 	// ---- e: sibling agreement on literal decoding
